@@ -78,9 +78,11 @@ def cli_case(rng, idx):
         treeoutput.export(t, s)
         sents.append((s.getvalue(), len(trees.terminals(t))))
     fmt = rng.choice(FORMATS + ["tigerxml"])
-    use_filter = rng.random() < 0.4
-    fval = rng.randint(1, 4)
-    kept = [x for x in sents if not (use_filter and x[1] < fval)]
+    use_filter = rng.random() < 0.5
+    fval = rng.choice([0, 0, 0, 1, 2, 3, 4, 6])
+    fop = rng.choice(["lt", "lt", "gt", "eq"])
+    dropped = {"lt": lambda n_: n_ < fval, "gt": lambda n_: n_ > fval, "eq": lambda n_: n_ == fval}[fop]
+    kept = [x for x in sents if not (use_filter and dropped(x[1]))]
     n = len(kept)
     natoms = rng.randint(1, 3)
     spec = "_".join(rng.choice(ATOMS) for _ in range(natoms))
@@ -91,7 +93,7 @@ def cli_case(rng, idx):
         spec = "_".join(parts)
     with cli.Scratch() as sc:
         src = sc.write("src.export", "".join(x[0] for x in sents))
-        extra = ["--trans", "filter_by_length", "--params", "filteroperator:lt", "filtervalue:%d" % fval] if use_filter else []
+        extra = ["--trans", "filter_by_length", "--params", "filteroperator:" + fop, "filtervalue:%d" % fval] if use_filter else []
         # writer / reader options must reach the parts exactly as they reach the unsplit output
         dopts = {"export": [["export_four"], ["gf"], []], "brackets": [["gf"], ["brackets_emptyroot"], ["gf", "gf_separator:#"], []],
                  "discobrackets": [["gf"], []], "tigerxml": [[]], "terminals": [["terminals_pos"], []]}[fmt]
@@ -149,7 +151,7 @@ def cli_case(rng, idx):
             dod[kx] = vx
         else:
             dod[x] = True
-    calls = tx_call("filter_by_length", {"filteroperator": "lt", "filtervalue": fval}) if use_filter else ""
+    calls = tx_call("filter_by_length", {"filteroperator": fop, "filtervalue": fval}) if use_filter else ""
     lines.append(Line("corr", "convert_split", ["export", "continuous" if "continuous" in extra else "-", fmt, proto.enc_opts(dod),
                                                 proto.enc_s(decl) if decl is not None else "n", calls, proto.enc_s(spec),
                                                 proto.enc_s("".join(x[0] for x in sents))], parts_txt))
@@ -157,7 +159,7 @@ def cli_case(rng, idx):
         l = Line("pred", "P.C17.reject", [proto.enc_s(spec), str(n)], note=";".join(problems))
         l.expect = "parts-well-formed-expected:" + problems[0]
         lines.append(l)
-    return Case("cli:" + fmt, {"spec": spec, "sentences": k, "after_filter": n, "format": fmt, "filter": use_filter,
+    return Case("cli:" + fmt, {"spec": spec, "sentences": k, "after_filter": n, "format": fmt, "filter": (fop, fval) if use_filter else None,
                                "observed": observed, "problems": problems}, lines, nontrivial=natoms > 1)
 
 
